@@ -917,7 +917,7 @@ class Bag(DaskMethodsMixin):
         if initial is not no_default:
             return self.reduction(
                 curry(_reduce, binop, initial=initial),
-                curry(_reduce, combine),
+                curry(_reduce, combine, empty=initial),
                 split_every=split_every,
                 out_type=out_type,
             )
@@ -2369,7 +2369,14 @@ def map_partitions(func, *args, **kwargs):
     return return_type(graph, name, npartitions)
 
 
-def _reduce(binop, sequence, initial=no_default):
+def _reduce(binop, sequence, initial=no_default, empty=no_default):
+    if empty is not no_default:
+        # only an empty sequence reduces to ``empty``
+        sequence = iter(sequence)
+        try:
+            initial = next(sequence)
+        except StopIteration:
+            return empty
     if initial is not no_default:
         return reduce(binop, sequence, initial)
     else:
